@@ -43,14 +43,59 @@ def build(U):
     f.sub('R-atomic', r'self\.count\.fetch_add\((\w+), atomic::Ordering::\w+\)', r'self.verif_fetch_add(\1)', count=1)
     f.header("    pub fn check_current_enabled(&self, slowlog_sample_rate: u64) -> (r: bool)\n        ensures true   // obligation: no division by zero / overflow for every sample rate (0 included)")
     U.add_fn(f)
-    U.add('}\nfn max(a: u64, b: u64) -> (r: u64) ensures r == (if a >= b { a } else { b }) { if a >= b { a } else { b } }\n} // verus!\nfn main() {}\n')
+    U.add('}\nfn max(a: u64, b: u64) -> (r: u64) ensures r == (if a >= b { a } else { b }) { if a >= b { a } else { b } }\n')
+    # ---- slowlog record of a sampled command: the element shortener must not panic for any argument bytes
+    # (String::truncate panics when the new length is not on a char boundary: that precondition becomes an obligation, like R9)
+    U.add('''
+// byte-level facts about a String (Verus models String as Seq<char>; byte length and char boundaries are uninterpreted)
+pub uninterp spec fn blen(s: Seq<char>) -> nat;
+pub uninterp spec fn char_boundary(s: Seq<char>, i: nat) -> bool;
+// std: 0 and len are always char boundaries
+pub broadcast axiom fn axiom_char_boundary_ends(s: Seq<char>) ensures #[trigger] char_boundary(s, 0), char_boundary(s, blen(s));
+#[verifier::external_body] fn shim_str_len(s: &String) -> (r: usize) ensures r == blen(s@) { s.len() }
+#[verifier::external_body] fn shim_is_char_boundary(s: &String, i: usize) -> (r: bool) ensures r == (i <= blen(s@) && char_boundary(s@, i as nat)) { s.is_char_boundary(i) }
+// String::truncate(n): no-op for n >= len, PANICS if n is not on a char boundary
+#[verifier::external_body] fn shim_truncate(s: &mut String, n: usize)
+    requires n >= blen(old(s)@) || char_boundary(old(s)@, n as nat)
+    ensures blen(final(s)@) <= blen(old(s)@)
+{ s.truncate(n) }
+#[verifier::external_body] fn shim_format() -> String { unimplemented!() }
+#[verifier::external_body] fn shim_push_str(s: &mut String, t: &String) { s.push_str(t) }
+fn min(a: usize, b: usize) -> (r: usize) ensures r == (if a <= b { a } else { b }) { if a <= b { a } else { b } }
+''')
+    ty, val = S.const_expr('MAX_ELEMENT_LENGTH')
+    U.add('const MAX_ELEMENT_LENGTH: %s = %s;\n' % (ty, val))
+    g = S.fn('get_brief_command')
+    # closure-lift: `let limit_len = |mut s: String| { BODY };` -> fn limit_len(mut s: String) -> String { BODY }  (BODY verbatim)
+    m = re.search(r'let limit_len = \|mut s: String\| \{', g.text)
+    if not m:
+        g._lost('closure-lift: let limit_len = |mut s: String| {')
+    mask = vlib.code_mask(g.text)
+    bo = m.end() - 1
+    bc = vlib.match_brace(g.text, mask, bo)
+    L = vlib.Fn('limit_len', g.file, g.line, 'fn limit_len(mut s: String) -> String ' + g.text[bo:bc + 1], U.log)
+    U.log.rule('closure-lift', L, 'closure limit_len of get_brief_command lifted verbatim into a function')
+    L.sub('R-str', r'\bs\.len\(\)', 'shim_str_len(&s)')
+    L.sub('R-trunc', r'\bs\.truncate\(([^()]+)\)', r'shim_truncate(&mut s, \1)', count=1)
+    L.sub('R-fmt', r'format!\("\(\{\}bytes\)", real_len\)', 'shim_format()', count=1)
+    L.replace('R-str', 's.push_str(&postfix)', 'shim_push_str(&mut s, &postfix)', count=1)
+    if 's.is_char_boundary(' in L.text:
+        L.sub('R-str', r'\bs\.is_char_boundary\(([^()]+)\)', r'shim_is_char_boundary(&s, \1)')
+    L.text = L.text.replace('std::cmp::min(', 'min(')
+    if re.search(r'\bwhile\b', L.text):
+        L.loop_spec(0, '            invariant end <= blen(s@), end <= MAX_ELEMENT_LENGTH, char_boundary(s@, 0)\n            decreases end', itname=None)
+    L.header('fn limit_len(mut s: String) -> (r: String)\n    ensures true   // obligation: String::truncate is only ever asked for a char boundary (or a no-op length)')
+    L.body_start('    broadcast use axiom_char_boundary_ends;')
+    U.add_fn(L)
+    U.add('} // verus!\nfn main() {}\n')
     # allocation-site scan
     known = json.load(open(os.path.join(vlib.VERIF, 'contracts', 'alloc_sites.json')))
     now = alloc_sites(vlib.REPO)
     new = [s for s in now if s not in known]
     U.log.scans.append({'file': 'src/**', 'fact': 'allocation sites sized by a value that is neither a constant nor a length of received data are exactly the reviewed ones (contracts/alloc_sites.json)%s'
                         % ('' if not new else '; NEW: ' + ' | '.join(new)), 'matches': len(now), 'ok': not new})
-    U.trust('AtomicU64::fetch_add returns an arbitrary u64 (R-atomic)', 'allocation-site scan is syntactic (declared as a scan, not a proof)')
+    U.trust('String byte length / char boundaries uninterpreted; 0 and len are char boundaries (std); String::truncate panics off a char boundary (turned into an obligation); the rest of get_brief_command (format!, iterator chains) is not under contract',
+            'AtomicU64::fetch_add returns an arbitrary u64 (R-atomic)', 'allocation-site scan is syntactic (declared as a scan, not a proof)')
 
 MUST_FAIL = '''
 proof fn must_fail_misc_vacuity() ensures false { }
